@@ -52,6 +52,8 @@ DEFAULT_PROFILE = dict(
   max_nodes=40,
   anim_counts=(0, 0, 0, 1, 2, 3),
   initial_counts=(0, 0, 1, 2, 4),
+  time_density=4,       # one in `time_density` begin/end attributes is set
+  body_divs=None,       # (lo, hi) number of div children of body, overriding fanout
   dense=True,           # containers usually have children and content is usually associated with a region
   anim_on_offset=True,  # animation steps on elements / regions whose own begin is non-zero (ttconv finding I-1)
 )
@@ -188,9 +190,9 @@ def times(prof):
 
 
 def opt_time(prof, p_none=0.75):
-  if p_none >= 0.7:
-    return st.one_of(st.none(), st.none(), st.none(), times(prof))
-  return st.one_of(st.none(), times(prof))
+  """None most of the time: one draw in prof["time_density"] (one in two when p_none < 0.7) is a time"""
+  k = prof["time_density"] if p_none >= 0.7 else 2
+  return st.integers(0, k - 1).flatmap(lambda i: times(prof) if i == 0 else st.none())
 
 
 class _Ctx:
@@ -304,7 +306,10 @@ def _node(draw, ctx, kind, depth, regions, in_ruby_annot=False, plain_self=False
 
   fan = prof["fanout"]
   if kind == "body":
-    kids(["div"], 0, fan)
+    if prof["body_divs"]:
+      kids(["div"], prof["body_divs"][0], prof["body_divs"][1])
+    else:
+      kids(["div"], 0, fan)
   elif kind == "div":
     kids(["div", "p", "p"], 0, fan)
   elif kind == "p":
@@ -548,7 +553,9 @@ def simplifications(spec):
         get(s2, root, path)["lang"] = ""
         yield s2
       if n["kind"] == "text" and len(n["text"]) > 1:
-        for repl in (n["text"].strip(), n["text"][:len(n["text"]) // 2], n["text"][len(n["text"]) // 2:], "x"):
+        import re as _re
+        toks = _re.findall(r"w\d+", n["text"])
+        for repl in ([n["text"].strip()] + toks[:1] + ([] if toks else ["x"])):   # word tokens stay whole (they identify text)
           if repl != n["text"]:
             s2 = _copy(spec)
             get(s2, root, path)["text"] = repl
